@@ -4,7 +4,7 @@ import z3
 
 from .values import (RID_BITS, IDX_BITS, LIT_BASE, FRESH_BASE, MAXLEN, Unsupported, bv, idx, rid, SliceV, ArrV, StructV,
                      PtrV, IfaceV, FuncV, OpaqueV, TupleV, is_scalar_type, scalar_sort, sort_key, leaves, flatten,
-                     unflatten, ite_value, eq_value, _byte_type)
+                     unflatten, ite_value, eq_value, _byte_type, rid_flags)
 
 TRUE = z3.BoolVal(True)
 FALSE = z3.BoolVal(False)
@@ -136,6 +136,18 @@ class HeapLV(LV):
         self._keys(ex.heap_key(self.owner, self.name), self.typ, out, 0)
         return out
 
+    def flags(self):
+        out = []
+        self._flags(self.typ, out, 0)
+        return out
+
+    def _flags(self, typ, out, depth):
+        if typ.under().k == "struct" and depth < 8:
+            for name, ft, _ in typ.fields():
+                self._flags(ft, out, depth + 1)
+            return
+        out.extend(rid_flags(typ))
+
     def _keys(self, base, typ, out, depth):
         # nested struct fields get one key per innermost non-struct field, so that an interior pointer
         # (root type + field path) and the enclosing object address the same cells
@@ -148,8 +160,18 @@ class HeapLV(LV):
 
     def get(self, ex, st):
         terms = []
-        for k, s in self.keys(ex):
+        ks = self.keys(ex)
+        for k, s in ks:
             terms.append(z3.Select(ex.heap_arr(st, k, s), self.oid))
+        if True:
+            # every region / object id stored in the PRE-state heap denotes something that existed before the call
+            try:
+                flags = self.flags()
+            except Unsupported:
+                flags = []
+            for (k, s), isrid in zip(ks, flags):
+                if isrid:
+                    ex.facts.append(z3.ULT(z3.Select(z3.Array("H_" + k, RS, s), self.oid), rid(FRESH_BASE)))
         v, _ = unflatten(self.typ, terms)
         if not ex.spec:
             try:
@@ -460,8 +482,12 @@ class Executor:
             for k in range(n.as_long()):
                 a = z3.Store(a, dlo + idx(k), z3.Select(src_arr, slo + idx(k)))
             return a
-        i = z3.BitVec("cpi", IDX_BITS)
-        return z3.Lambda([i], z3.If(z3.And(i >= dlo, i < dlo + n), z3.Select(src_arr, i - dlo + slo), z3.Select(dst_arr, i)))
+        # bulk copy of symbolic length: a fresh array defined pointwise (instantiated at the indices a goal reads)
+        i = z3.BitVec("p", IDX_BITS)
+        a = self.fresh("copy", dst_arr.sort())
+        self.facts.append(z3.ForAll([i], z3.Select(a, i) == z3.If(z3.And(i >= dlo, i < dlo + n), z3.Select(src_arr, i - dlo + slo),
+                                                                  z3.Select(dst_arr, i))))
+        return a
 
     def alloc_slice(self, st, elem, ln, cap, zero=True):
         r = self.fresh_rid()
